@@ -52,10 +52,10 @@ CHECKS = {
          "deterministic simulation; exhaustive outcome-sequence enumeration with virtual clock"),
  "C18": ("exploration", "5.C18",
          "FallbackClient over 1-4 real Clients on simulated servers with enumerated/sampled hit-miss matrices and down fallbacks; per-server command logs decide visit order, stop point, returned value and write locality.",
-         "deterministic multi-node simulation; per-node command logs"),
+         "deterministic multi-node simulation with server outages of fallback caches; per-node command logs"),
  "C19": ("exploration", "5.C19",
          "Simulated ElastiCache endpoint and cache nodes; construction and sequences of reconfigurations with segmented config replies and ERROR endpoints; per-node command logs vs reference placement over the advertised list, address kind per use_vpc, socket ledger.",
-         "deterministic multi-node simulation; reconfiguration histories; per-node command logs"),
+         "deterministic multi-node simulation; reconfiguration histories incl. two-caller interleavings (second caller run while the first is parked in a socket call); per-node command logs"),
 }
 NA = {
  "C11": "pure function of (key, node set): no schedule, clock, fault or peer to simulate (DESIGN 6)",
